@@ -7,7 +7,7 @@
                             inserted at their places; the outcome is the same
      loop_bounded           C08: a timer (or cancellation) at iteration T ends the loop there *)
 From Coq Require Import ZifyBool ZifyN ZifyNat.
-Require Import MB.GoSem MB.CrcModel MB.PacketModel MB.ClientModel MB.proofs.ClientProofs MB.proofs.ClientC07.
+Require Import MB.GoSem MB.CrcModel MB.PacketModel MB.ClientModel MB.proofs.CrcProofs MB.proofs.ClientProofs MB.proofs.ClientC07.
 Open Scope N_scope.
 Ltac Zify.zify_post_hook ::= Z.div_mod_to_equations.
 
@@ -188,6 +188,18 @@ Proof.
   - rewrite Hp in C. unfold parse_rtu_response_crc in C.
     destruct (crc_gate_passed (reads (snd x)) parse_rtu_response) as [[_ G]|[G|G]]; [exact G| |];
       rewrite G in C; discriminate.
+Qed.
+
+(* for byte strings this is the frame layout: the bytes end in the CRC trailer of the rest *)
+Lemma crc_consistent_with_crc l : bytes_ok l -> crc_consistent l -> exists body, l = with_crc body.
+Proof.
+  intros Hb (body & t & El & Hl & Hc). exists body. subst l.
+  apply bytes_ok_app in Hb. destruct Hb as [Hbody Ht].
+  destruct t as [|a [|b [|? ?]]]; try discriminate.
+  apply bytes_ok_cons in Ht. destruct Ht as [Ha Ht]. apply bytes_ok_cons in Ht. destruct Ht as [Hb' _].
+  pose proof (crc16_lt body Hbody) as Hlt.
+  unfold with_crc, crc_trailer, crc_lo, crc_hi. unfold le16 in Hc.
+  f_equal. f_equal; [lia|f_equal; lia].
 Qed.
 
 (* ---------- C19 ---------- *)
